@@ -20,7 +20,7 @@ import (
 // image describes one store state that is about to be (re)opened.
 type image struct {
 	h       *history
-	variant string // keep | drop | mix | clean-restart | clean-close | sigkill
+	variant string // keep | drop | mix | torn | torn-mix | clean-restart | clean-close | sigkill
 	k       int64  // FS operation after which the crash happened (0: no crash)
 	kind    string // kind of that operation
 	// puts with index < admissible had been started when the crash happened:
@@ -33,6 +33,12 @@ type image struct {
 	recent     []string // FS operations that preceded the crash
 	// sstables created before the crash whose directory entry no directory sync had covered yet
 	unsyncedSST []string
+	// torn-write images: only the first `cut` bytes of operation k (a write) reached the file
+	cut  int
+	torn map[string]any
+	// wantFP asks openAndCheck for a fingerprint of what the reopened database returns (before NewStorage)
+	wantFP bool
+	fp     string
 }
 
 func (im *image) note(f string, a ...any) {
@@ -46,7 +52,7 @@ func (im *image) witness() any {
 	for j, p := range im.h.Puts {
 		puts = append(puts, fmt.Sprintf("#%d id=%s len=%d", j, lib.HexShort(p.ID[:], 6), len(p.Val)))
 	}
-	return map[string]any{
+	w := map[string]any{
 		"puts":                          puts,
 		"fs_operations_up_to_the_crash": im.recent,
 		"sstables_created_but_not_directory_synced_at_the_crash": im.unsyncedSST,
@@ -54,9 +60,18 @@ func (im *image) witness() any {
 		"puts_started_at_crash": im.admissible, "puts_acknowledged_at_crash": im.acked, "observations": im.notes,
 		"replay": fmt.Sprintf("VERIF_SEED=%d VERIF_C17_FOCUS=%d:20 /verif/run.sh C17 quick  (history stream %q idx %d; which FS operation is the k-th varies with goroutine timing, hence the repetitions)", im.h.Seed, im.h.Idx, im.h.Stream, im.h.Idx),
 	}
+	if im.torn != nil {
+		w["torn_write"] = im.torn
+		w["crash_during_fs_op"] = im.k
+		delete(w, "crash_after_fs_op")
+	}
+	return w
 }
 
 func (im *image) key() string {
+	if im.torn != nil {
+		return fmt.Sprintf("%s/%d/%d/%s@%d", im.h.Stream, im.h.Idx, im.k, im.variant, im.cut)
+	}
 	return fmt.Sprintf("%s/%d/%d/%s", im.h.Stream, im.h.Idx, im.k, im.variant)
 }
 
@@ -296,6 +311,9 @@ func openAndCheck(r *lib.Run, im *image, open func() (*pebble.DB, error)) (o *op
 		return nil
 	}
 	im.note("at open: %d items, %d bytes present, persisted usage %d (record present: %v)", len(before.items), before.held, before.rec, before.hasRe)
+	if im.wantFP {
+		im.fp, _ = fingerprint(db)
+	}
 	checkUsage(r, im, before, "at open")
 	checkKeys(r, im, before, "at open")
 	var st storage.ContentStorage
